@@ -9,6 +9,7 @@ import (
 	"sort"
 	"strings"
 	"sync"
+	"sync/atomic"
 	"time"
 
 	"github.com/ipfs/go-datastore"
@@ -259,6 +260,7 @@ func (s *nodeSuite) finish(dir string, rule string, exhaustive bool) {
 // same process and after a process restart
 func runNodeTerminal(dir string, seed uint64, tier string) {
 	s := &nodeSuite{name: "nodeterminal", res: newResult("nodeterminal", seed, tier)}
+	slowSubscriberProbe(s.res)
 	for _, role := range allRoles {
 		for _, status := range []string{"Completed", "Failed", "Cancelled"} {
 			for _, reopen := range []bool{false, true} {
@@ -1103,4 +1105,93 @@ func runNodeAPI(dir string, seed uint64, tier string) {
 		}
 	}
 	s.finish(dir, "enumerated: 4 roles x every status reachable by a real history x 27 API sequences (close / close-with-error with and without send and transport failures, double close, pause / resume locally and by the counterparty in every order, vouchers and results with failing sends, failed completion); data limits: 4 block-size sequences x initial limit in {0, every prefix sum -1/0/+1} x {push, pull} x restart point, with validation-update rounds at new limit = progress-1, progress, progress+1, 0", true)
+}
+
+// slowSubscriberProbe (C02, C17): a subscriber that stays for seconds inside its callback holds the queue of
+// announcements, it does not reorder it: a second subscriber is told about a channel's events in the order they
+// were applied, and once it has been told that the channel is Cancelled it is told nothing more about it
+func slowSubscriberProbe(res *suiteResult) {
+	r := newNodeRig(res, 1)
+	defer func() { _ = r.mgr.Stop(context.Background()) }()
+	ctx := context.Background()
+	release := make(chan struct{})
+	var once sync.Once
+	var target atomic.Value
+	r.mgr.SubscribeToEvents(func(evt datatransfer.Event, st datatransfer.ChannelState) {
+		if c, ok := target.Load().(datatransfer.ChannelID); !ok || st.ChannelID() != c {
+			if st.ChannelID() == r.sentinel {
+				return
+			}
+		}
+		if st.ChannelID() == r.sentinel {
+			return
+		}
+		first := false
+		once.Do(func() { first = true })
+		if first {
+			select {
+			case <-release:
+			case <-time.After(8 * time.Second):
+			}
+		}
+	})
+	type seen struct {
+		code   datatransfer.EventCode
+		status datatransfer.Status
+	}
+	var mu sync.Mutex
+	var got []seen
+	terminal := make(chan struct{}, 1)
+	r.mgr.SubscribeToEvents(func(evt datatransfer.Event, st datatransfer.ChannelState) {
+		if st.ChannelID() == r.sentinel {
+			return
+		}
+		mu.Lock()
+		got = append(got, seen{evt.Code, st.Status()})
+		mu.Unlock()
+		if st.Status() == datatransfer.Cancelled {
+			select {
+			case terminal <- struct{}{}:
+			default:
+			}
+		}
+	})
+	chid, err := r.mgr.OpenPushDataChannel(ctx, peerOf(2), datatransfer.TypedVoucher{Type: "T1", Voucher: nodeOf(3)}, cidOf(1), nodeOf(2))
+	if err != nil {
+		return
+	}
+	target.Store(chid)
+	_ = r.mgr.CloseDataTransferChannel(ctx, chid)
+	// give a notifier that does not wait for its subscribers the time to move on; one that does is simply held
+	select {
+	case <-terminal:
+	case <-time.After(3500 * time.Millisecond):
+	}
+	close(release)
+	deadline := time.Now().Add(10 * time.Second)
+	for time.Now().Before(deadline) {
+		mu.Lock()
+		n := len(got)
+		done := n > 0 && got[n-1].status == datatransfer.Cancelled
+		mu.Unlock()
+		if done {
+			break
+		}
+		time.Sleep(20 * time.Millisecond)
+	}
+	time.Sleep(300 * time.Millisecond)
+	mu.Lock()
+	defer mu.Unlock()
+	afterTerminal := false
+	for _, g := range got {
+		if afterTerminal {
+			what := fmt.Sprintf("event %s (status %s) was handed to a subscriber after it had been told that the channel is Cancelled: a subscriber that spent seconds in its callback made the announcements overtake each other", eventName(g.code), statusName(g.status))
+			res.fail(monitorFailure{Property: "C02", Signature: "event-after-terminal:slow-subscriber", What: what, Input: "open push, close, with a first subscriber that stays 3.5 s in its first callback"})
+			res.fail(monitorFailure{Property: "C17", Signature: "event-after-terminal:slow-subscriber", What: what, Input: "open push, close, with a first subscriber that stays 3.5 s in its first callback"})
+			break
+		}
+		if g.status == datatransfer.Cancelled {
+			afterTerminal = true
+		}
+	}
 }
